@@ -8,6 +8,8 @@ import (
 	"image"
 	"image/jpeg"
 	"image/png"
+	"os"
+	"path/filepath"
 
 	"verif/checks/c07/drv"
 	"verif/checks/c07/fam"
@@ -154,8 +156,43 @@ func jpegCase(kind, pattern string, w, h, quality int) (*fam.ImageCase, error) {
 		Data: buf.Bytes(), W: w, H: h, Frames: []fam.RefFrame{{Bounds: image.Rect(0, 0, w, h), Canvas: want, Duration: ^uint64(0), Disposal: ^uint64(0)}}, Info: map[string]string{}}, nil
 }
 
+// pngSeedCase: a PNG file of test/data (other encoders: interlaced, 1/2/4-bit gray, tRNS, ...) with image/png's decode as
+// the reference. nil when image/png rejects the file, or it is animated (image/png only reads the default image).
+func pngSeedCase(path string) *fam.ImageCase {
+	data, err := os.ReadFile(path)
+	if err != nil || bytes.Contains(data, []byte("acTL")) {
+		return nil
+	}
+	dec, err := png.Decode(bytes.NewReader(data))
+	if err != nil {
+		return nil
+	}
+	px, ok := fam.ToBGRA8(dec)
+	if !ok {
+		return nil
+	}
+	b := dec.Bounds()
+	c := &fam.ImageCase{Family: "png-seed", Pkg: "png", Class: "png-seed", Desc: "png seed " + filepath.Base(path), Data: data, W: b.Dx(), H: b.Dy(),
+		Frames: []fam.RefFrame{{Bounds: image.Rect(0, 0, b.Dx(), b.Dy()), Canvas: px, Duration: ^uint64(0), Disposal: ^uint64(0)}}}
+	c.Info = fam.PNGInfo(data)
+	c.Class = "png-seed/" + c.Info["colour"] + "/interlace" + c.Info["interlace"]
+	return c
+}
+
 func imageUnits(thorough bool) []imgUnit {
 	var us []imgUnit
+	// PNG files of test/data (up to 256 KiB; quick: up to 64 KiB)
+	seeds, _ := filepath.Glob(filepath.Join(ev.Repo(), "test", "data", "*.png"))
+	more, _ := filepath.Glob(filepath.Join(ev.Repo(), "test", "data", "*", "*.png"))
+	for _, path := range append(seeds, more...) {
+		fi, err := os.Stat(path)
+		if err != nil || fi.Size() > 256<<10 || (!thorough && fi.Size() > 64<<10) {
+			continue
+		}
+		if c := pngSeedCase(path); c != nil {
+			us = append(us, imgUnit{mk: func() (*fam.ImageCase, error) { return c, nil }, pixfmt: fam.PixBGRANonpremul})
+		}
+	}
 	type sz struct{ w, h int }
 	var sizes []sz
 	for w := 1; w <= 9; w++ {
